@@ -181,7 +181,7 @@ Proof.
   apply (IH c km k' (Hall c Hin) C Hw Hn Hcl Hk).
 Qed.
 
-Lemma rd_tree_walk : forall p m km, rd_tree m -> rwalk m p = Some km -> rd_tree km.
+Lemma rd_tree_walk_p : forall p m km, rd_tree m -> rwalk m p = Some km -> rd_tree km.
 Proof.
   induction p as [|x q IH]; intros m km Hm Hw; [injection Hw as <-; exact Hm|].
   cbn [rwalk] in Hw. destruct (rget (rkids m) x) as [c|] eqn:Eg; [|discriminate]. destruct (rget_in _ _ _ Eg) as (Hin & _).
@@ -215,7 +215,7 @@ Proof.
     assert (rcls t = CRoot) as Hct by (unfold t; rewrite (rcls_rsubst p m km (merge km d2) Hwm (rcls_merge km d2)); exact Hc).
     assert (rd_tree t) as Hrt.
     { apply (rd_tree_rsubst p m km (merge km d2) Hok Hrm Hwm (rname_merge km d2) (rcls_merge km d2)).
-      apply rd_tree_merge; [apply (rd_tree_walk p m km Hrm Hwm)|exact Hrd]. }
+      apply rd_tree_merge; [apply (rd_tree_walk_p p m km Hrm Hwm)|exact Hrd]. }
     destruct (read_whole_file c0 t Hct Hrt) as (A & _); [rewrite Hnt; exact Hrne|rewrite Hnt; exact Hrns|exact A].
 Qed.
 
@@ -362,4 +362,114 @@ Proof.
   assert (q ++ [x] <> []) as Hne by (destruct q; discriminate).
   rewrite (whole_tree_at_an_emdpath_is_the_inner_node_save c0 m root (q ++ [x]) km data md (Some true) Hc Hname Hmds Hok Hne Hwm Hwr Hnames).
   apply (wf_after_inner_node_appendover c0 m root q x pk km data md); assumption.
+Qed.
+
+(* ---------- append-over of the branch BELOW an inner node (tree = None): the node keeps its own content, its children are
+   united with the runtime node's, common ones replaced *)
+Theorem inner_node_appendover_branch_closed_form c0 m root p km data md :
+  In md appendovermode ->
+  rcls m = CRoot -> rname root = rname m -> rmds root = [] -> ok_tree m -> p <> [] ->
+  rwalk m p = Some km -> rwalk root p = Some data ->
+  compat_ao data (shallow_links km) (rkids km) ->
+  append_existing root p (WA md None None) md (whole_file c0 m)
+  = Ok (whole_file c0 (rsubst p m (with_kids km (aom data (rkids km))))).
+Proof.
+  intros Hmd Hc Hname Hmds Hok Hp Hwm Hwr Hcompat.
+  assert (mem md appendovermode = true) as Hao by (destruct Hmd as [<-|[<-|[<-|[<-|[<-|[]]]]]]; reflexivity).
+  rewrite (inner_save_shape c0 m root p km data md None Hc Hname Hmds Hok Hp Hwm Hwr). rewrite Hao.
+  set (km' := with_kids km (aom data (rkids km))).
+  assert (rname km' = rname km) as Hn' by (destruct km; reflexivity).
+  assert (append_branch true data (enc km) = Ok (enc km')) as Hstep.
+  { rewrite (enc_eq km). rewrite (ao_union data (node_tags km) (shallow_links km) (rkids km) Hcompat). f_equal.
+    rewrite (enc_eq km'). unfold km'. destruct km; reflexivity. }
+  unfold ow_and_branch. cbn [bind]. unfold whole_file. cbn [update_at]. rewrite get_first.
+  rewrite (update_at_enc (append_branch true data) p m km km' Hok Hwm Hn' Hstep). cbn [bind set]. rewrite String.eqb_refl.
+  rewrite (rname_rsubst p m km km' Hwm Hn'). reflexivity.
+Qed.
+
+Theorem wf_after_inner_node_appendover_branch c0 m root p km data md :
+  In md appendovermode ->
+  rcls m = CRoot -> rname root = rname m -> rmds root = [] -> ok_tree m -> p <> [] ->
+  rwalk m p = Some km -> rwalk root p = Some data ->
+  compat_ao data (shallow_links km) (rkids km) ->
+  plain_tree m -> plain_tree data ->
+  exists f, append_existing root p (WA md None None) md (whole_file c0 m) = Ok f /\ wf_emd c0 f = true.
+Proof.
+  intros Hmd Hc Hname Hmds Hok Hp Hwm Hwr Hcompat Hpm Hpd.
+  eexists. split; [apply (inner_node_appendover_branch_closed_form c0 m root p km data md); assumption|].
+  set (km' := with_kids km (aom data (rkids km))).
+  assert (rname km' = rname km /\ rcls km' = rcls km) as (Hn' & Hc') by (destruct km; split; reflexivity).
+  apply wf_whole_file.
+  - rewrite (rcls_rsubst p m km km' Hwm Hc'). exact Hc.
+  - apply (plain_tree_rsubst p m km km' Hok Hpm Hwm Hn' Hc').
+    apply plain_tree_inv. assert (rkids km' = aom data (rkids km)) as -> by (destruct km; reflexivity).
+    apply plain_aom; [|exact Hpd].
+    destruct (plain_tree_walk m Hpm p km Hp Hwm) as (_ & _ & _ & D). apply plain_tree_inv. exact D.
+Qed.
+
+(* ---------- a foreign inner node (of a tree whose root name the file lacks) placed under an emdpath target, for each tree
+   flag: the node with its branch / the node alone / the branch below it become children of the target *)
+Definition placed (data : rnode) (tr : option bool) : list rnode :=
+  match tr with Some true => [data] | Some false => [with_kids data []] | None => rkids data end.
+
+Theorem foreign_node_closed_form c0 m root tp data p kt md tr :
+  rcls m = CRoot -> rname root <> rname m -> ok_tree m -> rwalk m p = Some kt ->
+  tp <> [] -> rwalk root tp = Some data -> ok_tree data ->
+  (forall k, In k (placed data tr) -> ~ In (rname k) (keys (olinks (enc kt)))) ->
+  Forall (fun s => s <> "" /\ no_slash s = true) (rname m :: p) ->
+  append_existing root tp (WA md tr (Some (join_slash (rname m :: p)))) md (whole_file c0 m)
+  = Ok (whole_file c0 (rsubst p m (with_kids kt (rkids kt ++ placed data tr)))).
+Proof.
+  intros Hc Hrn Hok Hw Htp Hwr Hokd Hnew Hnames.
+  inversion Hnames as [|? ? (Hrne & Hrns) Hnp]; subst.
+  assert (Forall (fun s => no_slash s = true) (rname m :: p)) as Hns.
+  { constructor; [exact Hrns|]. eapply Forall_impl; [|exact Hnp]. cbn. intros a Ha. apply Ha. }
+  unfold append_existing. rewrite Hwr. cbn [emdpath tree].
+  rewrite (rootgroups_whole c0 m Hc). cbn [mem].
+  assert (String.eqb (rname root) (rname m) = false) as -> by (destruct (String.eqb (rname root) (rname m)) eqn:E; [apply String.eqb_eq in E; congruence|reflexivity]).
+  assert (join_slash (rname m :: p) <> "") as Hjne.
+  { destruct (rname m) as [|c1 r1] eqn:E; [congruence|]. destruct p; cbn [join_slash String.append]; discriminate. }
+  assert ((match join_slash (rname m :: p) with "" => true | String _ _ => false end) = false) as -> by (destruct (join_slash (rname m :: p)); [congruence|reflexivity]).
+  rewrite (parse_emdpath_join (rname m) p Hrne Hns).
+  rewrite (emd_target_enc c0 m p kt Hok Hw Hnp). cbn [bind].
+  assert ((match tp with [] => true | _ :: _ => false end) = false) as -> by (destruct tp; [congruence|reflexivity]).
+  set (kt' := with_kids kt (rkids kt ++ placed data tr)).
+  assert (rname kt' = rname kt) as Hn by (destruct kt; reflexivity).
+  assert (forall F, F (enc kt) = Ok (enc kt') -> update_at (whole_file c0 m) (rname m :: p) F = Ok (whole_file c0 (rsubst p m kt'))) as Hup.
+  { intros F HF. unfold whole_file. cbn [update_at]. rewrite get_first.
+    rewrite (update_at_enc F p m kt kt' Hok Hw Hn HF). cbn [bind set]. rewrite String.eqb_refl. rewrite (rname_rsubst p m kt kt' Hw Hn). reflexivity. }
+  assert (forall extra, enc (with_kids kt (rkids kt ++ extra)) = G (node_tags kt) ((shallow_links kt ++ enc_kids (rkids kt)) ++ enc_kids extra)) as Henc.
+  { intros extra. rewrite (enc_eq (with_kids kt (rkids kt ++ extra))).
+    assert (node_tags (with_kids kt (rkids kt ++ extra)) = node_tags kt /\ shallow_links (with_kids kt (rkids kt ++ extra)) = shallow_links kt /\ rkids (with_kids kt (rkids kt ++ extra)) = rkids kt ++ extra) as (-> & -> & ->) by (destruct kt; repeat split; reflexivity).
+    unfold enc_kids. rewrite map_app, app_assoc. reflexivity. }
+  rewrite enc_links' in Hnew.
+  destruct tr as [[|]|]; cbn [placed] in *; apply Hup; unfold kt'; cbn [placed]; rewrite Henc; rewrite (enc_eq kt).
+  - rewrite (new_child_written_whole data _ _ Hokd (Hnew data (or_introl eq_refl))). reflexivity.
+  - unfold write_single_node, add_link. assert (rname (with_kids data []) = rname data) as Hnd by (destruct data; reflexivity).
+    pose proof (Hnew (with_kids data []) (or_introl eq_refl)) as Hn0. rewrite Hnd in Hn0. apply has_false_iff in Hn0. rewrite Hn0.
+    cbn [enc_kids map]. rewrite Hnd. rewrite <- node_shallow_enc. reflexivity.
+  - apply (write_tree_spec data Hokd). exact Hnew.
+Qed.
+
+Theorem wf_after_a_foreign_node_under_an_emdpath c0 m root tp data p kt md tr :
+  rcls m = CRoot -> rname root <> rname m -> ok_tree m -> rwalk m p = Some kt ->
+  tp <> [] -> rwalk root tp = Some data -> ok_tree data ->
+  (forall k, In k (placed data tr) -> ~ In (rname k) (keys (olinks (enc kt)))) ->
+  Forall (fun s => s <> "" /\ no_slash s = true) (rname m :: p) ->
+  plain_tree m ->
+  Forall (fun k => plain (rname k) = true /\ rname k <> "metadatabundle" /\ rcls k <> CRoot /\ plain_tree k) (placed data tr) ->
+  exists f, append_existing root tp (WA md tr (Some (join_slash (rname m :: p)))) md (whole_file c0 m) = Ok f /\ wf_emd c0 f = true.
+Proof.
+  intros Hc Hrn Hok Hw Htp Hwr Hokd Hnew Hnames Hpm Hpl.
+  eexists. split; [apply (foreign_node_closed_form c0 m root tp data p kt md tr); assumption|].
+  set (kt' := with_kids kt (rkids kt ++ placed data tr)).
+  assert (rname kt' = rname kt /\ rcls kt' = rcls kt) as (Hn & Hcl) by (destruct kt; split; reflexivity).
+  apply wf_whole_file.
+  - rewrite (rcls_rsubst p m kt kt' Hw Hcl). exact Hc.
+  - apply (plain_tree_rsubst p m kt kt' Hok Hpm Hw Hn Hcl).
+    apply plain_tree_inv. assert (rkids kt' = rkids kt ++ placed data tr) as -> by (destruct kt; reflexivity).
+    apply Forall_app. split; [|exact Hpl].
+    assert (plain_tree kt) as Hpk.
+    { destruct p as [|x q]; [injection Hw as <-; exact Hpm|]. destruct (plain_tree_walk m Hpm (x :: q) kt ltac:(discriminate) Hw) as (_ & _ & _ & D). exact D. }
+    apply plain_tree_inv. exact Hpk.
 Qed.
